@@ -404,6 +404,14 @@ def body(chk, db, cfgname):
             verdict, why = "bad", "some blocks are not truncated (an `if` / `continue` bypasses the call): their retention flags keep the value of an earlier tolerance"
         else:
             verdict = "ok"
+            # ... and the loop is reached whatever the arguments are: truncate() also RE-evaluates the flag, so a call that returns
+            # before the loop (e.g. for Tolerance <= 0) leaves the flags of an earlier, coarser truncation in place
+            from checks.lehmann import early_exits_before
+            ee = early_exits_before(g, jj)
+            if ee:
+                fa_ = guard_facts(g, gctx).get(g.cfg.pos1(ee[0]), frozenset())
+                verdict, why = "bad", "the function returns before the loop over the blocks when {%s}: the retention flags then keep the values of an earlier truncation (truncateBlocks(0) no longer restores the untruncated state)" % (
+                    "; ".join(sorted(str(fact_str(x))[:50] for x in fa_)) or "a condition holds")
     if verdict == "ok":
         r2.ok(site, g.loc(), "truncate(Tolerance) on every part", cfgname)
     elif verdict == "bad":
